@@ -13,7 +13,7 @@ from dataclasses import replace
 from fractions import Fraction
 from typing import Any, Optional
 
-from .values import INF, POLY, Bool, Interval, Num, bool_to_num, has_opq, mk_sym, sym_const
+from .values import INF, POLY, Bool, Interval, Num, bool_to_num, has_opq, mk_sym, sym_const, sym_has_star
 
 F0 = Fraction(0)
 FLOAT = frozenset({"float"})
@@ -297,7 +297,7 @@ class NumOps:
                 rel = None
         if rel is None and a.sym is not None and b.sym is not None:
             rel = state.rel_lookup(a.sym, b.sym)
-            if rel is None and a.sym == b.sym and not _may_be_nan(a) and not has_opq(a.sym):
+            if rel is None and a.sym == b.sym and not _may_be_nan(a) and not sym_has_star(a.sym):
                 rel = frozenset({"EQ"})
         if rel and type(op) in _REL_TABLE:
             tvs = {_REL_TABLE[type(op)][r] for r in rel}
